@@ -1423,12 +1423,13 @@ func compileTableExpr(context *funcContext, reg int, ex *ast.TableExpr, ec *expc
 			if field.Key != nil {
 				line = field.Key
 			}
-			if c > 511 {
-				c = 0
+			blockno := c
+			if c > opMaxArgsC {
+				c = 0 // the block number does not fit C: it goes into the next word
 			}
 			code.AddABC(OP_SETLIST, tablereg, b, c, sline(line))
 			if c == 0 {
-				code.Add(uint32(c), sline(line))
+				code.Add(uint32(blockno), sline(line))
 			}
 		}
 	}
@@ -1868,6 +1869,12 @@ func patchCode(context *funcContext) { // {{{
 			maxreg = reg
 		}
 		switch curop {
+		case OP_SETLIST:
+			if opGetArgC(inst) == 0 { // the next word is the block number, not an instruction
+				mergeMoves(pc)
+				pc++
+				continue
+			}
 		case OP_CLOSURE:
 			nupvalues := int(context.Proto.FunctionPrototypes[opGetArgBx(inst)].NumUpvalues)
 			for i := 1; i <= nupvalues; i++ {
